@@ -126,6 +126,34 @@ pub struct Shape {
     pub fig: Figures,
 }
 
+/// One run of the REAL interpreter (natively, by the generator) on candidate witness `cand`
+/// under the representative lock values of lock class `lv` (C13).
+#[derive(Copy, Clone, Debug)]
+pub struct ICase {
+    pub cand: u8,
+    pub lv: u8,
+    /// the interpreter iterated to the end without an error
+    pub accept: bool,
+    /// what it reported: keys with a verified signature, hash atoms with a preimage,
+    /// absolute / relative lock atoms (by value) of the shape
+    pub sigs: u8,
+    pub pres: u8,
+    pub absm: u8,
+    pub relm: u8,
+}
+
+pub struct ITab {
+    pub sh: &'static Shape,
+    /// classes of (nLockTime, nSequence) under the INTERPRETER's own lock predicates
+    /// (`c13::iabs` / `c13::irel`, proved equal to the real evaluators for all u32); third
+    /// component: nSequence is final (0xffffffff)
+    pub lockvecs: &'static [(u8, u8, u8)],
+    /// candidate witnesses; `roles` = 1 for an unmutated library satisfaction, whose `abs` / `rel`
+    /// are the locks the library reported for it
+    pub cands: &'static [Wit],
+    pub cases: &'static [ICase],
+}
+
 #[derive(Copy, Clone)]
 pub struct World {
     pub sigs: u8,
